@@ -1315,9 +1315,15 @@ def finalize(tier, results):
     # are expected to be refused and do not count)
     regular = [cid for cid in results if ":ill:" not in cid]
     ok_regular = sum(1 for cid in regular if results[cid].stats.get("nontrivial"))
-    if regular:
-        o.check("lattice_mostly_constructible", ok_regular >= 0.5 * len(regular),
-                detail="%d of %d configurations constructed" % (ok_regular, len(regular)))
+    # configurations on which the instrument did not apply (stats *_not_claimed and nothing decided) say nothing
+    # about constructibility: they are neither counted for nor against it
+    unclaimed = sum(1 for cid in regular if not results[cid].stats.get("nontrivial")
+                    and not results[cid].stats.get("construction_failed")
+                    and any(k.endswith("_not_claimed") for k in results[cid].stats))
+    o.note("regular_configurations_not_claimed", unclaimed)
+    if len(regular) > unclaimed:
+        o.check("lattice_mostly_constructible", ok_regular >= 0.5 * (len(regular) - unclaimed),
+                detail="%d of %d configurations constructed (%d more not claimed)" % (ok_regular, len(regular) - unclaimed, unclaimed))
     return o
 
 
